@@ -169,8 +169,17 @@ def run(R):
                 probs.append(('the same segment can be requested again without advancing the segment number', f.ast))
         # the requested name uses the counter
         sets = [n for n in g.cfg.nodes if n.kind == 'stmt' and isinstance(n.ast, ast.Assign)
-                and any(isinstance(t, ast.Subscript) and ast.unparse(t) == 'name[-1]' for t in n.ast.targets)]
-        if not sets or any(ast.unparse(s.ast.value) != f'Component.from_segment({sv})' for s in sets):
+                and any(ast.unparse(t) in ('name[-1]', 'name') for t in n.ast.targets) and 'from_segment' in ast.unparse(n.ast.value)]
+        okset = bool(sets)
+        for s_ in sets:
+            v_ = ast.unparse(s_.ast.value)
+            tg = ast.unparse(s_.ast.targets[0])
+            if tg == 'name[-1]' and v_ != f'Component.from_segment({sv})':
+                okset = False
+            if tg == 'name' and v_ not in (f'name[:-1] + [Component.from_segment({sv})]', f'[*name[:-1], Component.from_segment({sv})]',
+                                           f'list(name[:-1]) + [Component.from_segment({sv})]'):
+                okset = False
+        if not okset:
             probs.append(('the segment component of the next Interest is not built from the segment counter', sets[0].ast if sets else g.f.node))
         elif loopfetch and not all(g.cfg.dominates(sets[0], f) for f in loopfetch):
             probs.append(('the next Interest is sent before its segment component is set', loopfetch[0].ast))
@@ -196,6 +205,27 @@ def run(R):
             R.fail('C19.LOP.2', inst, SF, construct if not isinstance(construct, ast.AsyncFunctionDef) else 'def segment_fetcher', what, site(g, construct))
     else:
         R.ok('C19.LOP.2', inst, site(g, segaug[0].ast))
+    # no in-place mutation of the fetched name: the same tuple completes every pending Interest the Data satisfies, so the
+    # list is shared with other consumers (e.g. a second fetch of the same object)
+    R.ob('C19.PRV.1', 'the name list returned by a fetch is not modified in place (it is shared with every other Interest the Data satisfied)')
+    nmut = 0
+    for n in g.cfg.nodes:
+        tgts = []
+        if n.kind == 'stmt' and isinstance(n.ast, (ast.Assign, ast.AugAssign)):
+            tgts = [t for t in (n.ast.targets if isinstance(n.ast, ast.Assign) else [n.ast.target]) if isinstance(t, ast.Subscript)]
+        muts = [t.value for t in tgts if isinstance(t.value, ast.Name)]
+        for c in n.calls():
+            if isinstance(c.func, ast.Attribute) and c.func.attr in ('append', 'pop', 'extend', 'insert', 'remove', 'clear', 'sort', 'reverse') \
+                    and isinstance(c.func.value, ast.Name):
+                muts.append(c.func.value)
+        for mv in muts:
+            shared = [s for s in g.sources(n, mv) if s.kind == 'unpack' and 'retry(' in ast.unparse(s.expr)]
+            if shared:
+                nmut += 1
+                R.fail('C19.PRV.1', f'{SF} :: {norm(n.ast)}', SF, n.ast, f'`{mv.id}` may be the name list of a fetched Data and is modified in place; a '
+                       'concurrent fetch of the same object sees the change (wrong final-block test / next segment)', site(g, n.ast))
+    if not nmut:
+        R.ok('C19.PRV.1', f'{SF} :: fetched name never mutated', site(g, g.f.node))
     # final-block tests: `meta.final_block_id == name[-1]` True edge returns; located after a yield
     fb = [t for t in g.cfg.nodes if t.kind == 'test' and 'final_block_id' in ast.unparse(t.ast)]
     inst = f'{SF} :: final-block tests'
